@@ -6,15 +6,19 @@ from . import common as K
 
 LEVEL = "other"
 EXPLANATION = (
-    "Decision-table, dominance and who-may-construct rules on IpTable/Obm/Ipv4Net: (R-ORDER) Ord for the table key "
-    "compares the masks of (self, other) first and returns the *reversed* ordering unless they are equal, in which "
-    "case it returns the ordering of the network ids of (self, other): keys iterate by mask descending, then id; "
-    "(R-FIRST) get_recipient walks the map forward and returns the value of the first network that contains the "
-    "address, add() is BTreeMap::insert (replace) keyed by the network; (R-CTOR) Ipv4Mask values are built only in "
-    "from_bitcount and Ipv4Net values only in new() (id = ip & mask) and new_1() (/32), with private fields, so the "
-    "masked-id and contiguous-mask invariants that Eq, contains and the order rely on hold for every value. Together "
-    "these make lookup a longest-prefix match structurally. Not decided: the arithmetic of contains / broadcast / "
-    "overlaps / range conversion / CIDR parsing over all 2^32 addresses.")
+    "Rules on IpTable/Obm/Ipv4Net, most of them decided on formulas extracted from MIR and a finite abstraction of "
+    "their inputs: (R-ORDER) Ord for the table key, evaluated for all 33x33 pairs of mask lengths and the three "
+    "relations of the ids, orders by mask length descending and then by network id; (R-FIRST) get_recipient walks the "
+    "map forward and returns the value of the first network that contains the address, add() is BTreeMap::insert "
+    "(replace) keyed by the network; (R-CTOR) Ipv4Mask values are built only in from_bitcount and Ipv4Net values only "
+    "in new()/new_1(), with private fields; (R-MASK) from_bitcount(n) is the top-min(n,32)-bits mask for every n; "
+    "(R-BITS) contains / broadcast / new are, bit position by bit position, (addr & mask) == id, id | !mask and "
+    "ip & mask on every feasible combination of bits, which with contiguous masks means a network contains exactly "
+    "id..=broadcast; (R-OVERLAP) overlaps equals 'the ranges intersect' on all orderings of the four bounds; (R-RANGE) "
+    "a range converts to a network only when the network's range equals it; (R-ENDIAN) address <-> u32 conversions are "
+    "big-endian both ways, so the derived byte-wise order is the numeric one. Together: lookup is longest-prefix match "
+    "over self-consistent subnet arithmetic. Not decided: CIDR text parsing, and the completeness half of the range "
+    "conversion (every aligned power-of-two block converts).")
 ASSUMPTIONS = ["the derived Ord of Ipv4Mask/Ipv4Address is the numeric order of the wrapped u32 / bytes", "BTreeMap iterates in key order"]
 
 
